@@ -69,6 +69,7 @@ type event struct {
 	PrecBits  int      `json:"precbits"`
 	LogScale  int      `json:"logscale"`
 	LogN      int      `json:"logn"`
+	Announced int      `json:"announced"`
 }
 
 type recEvk struct {
@@ -95,6 +96,7 @@ type variant struct {
 	slotOffs []int
 	stages   bool
 	quick    bool
+	announce int // bits of precision the variant announces beyond the generic floor (iterated mode)
 }
 
 func ip(x int) *int { return &x }
@@ -119,11 +121,36 @@ func variants() []variant {
 		{name: "packed-ringswitch", res: n7, btp: bootstrapping.ParametersLiteral{LogN: ip(10), LogSlots: ip(8), LogMessageRatio: mr(7)}, inLevels: []int{0}, batches: []int{2, 4}, slotOffs: []int{0, 1}},
 		{name: "noencaps", res: h192, btp: bootstrapping.ParametersLiteral{LogN: ip(10), LogMessageRatio: mr(10), EphemeralSecretWeight: ip(0)}, inLevels: []int{0, 1}, batches: []int{1}, stages: true},
 		{name: "iter2", res: base, btp: bootstrapping.ParametersLiteral{LogN: ip(10), LogMessageRatio: mr(10), IterationsParameters: &bootstrapping.IterationsParameters{BootstrappingPrecision: []float64{16}, ReservedPrimeBitSize: 28}}, inLevels: []int{0}, batches: []int{1}},
+		{name: "iter-highprec", res: ckks.ParametersLiteral{LogN: 10, LogQ: []int{60, 40, 40, 40}, LogP: []int{61, 61}, LogDefaultScale: 80, Xs: ring.Ternary{H: 192}},
+			btp: bootstrapping.ParametersLiteral{LogN: ip(10), LogMessageRatio: mr(10), IterationsParameters: &bootstrapping.IterationsParameters{BootstrappingPrecision: []float64{25, 25}, ReservedPrimeBitSize: 28}},
+			inLevels: []int{1}, batches: []int{1}, announce: 45},
 		{name: "cos-continuous", res: base, btp: bootstrapping.ParametersLiteral{LogN: ip(10), LogMessageRatio: mr(10), Mod1Type: mod1.CosContinuous, DoubleAngle: ip(3), Mod1Degree: ip(63)}, inLevels: []int{0}, batches: []int{1}, stages: true},
 		{name: "sin-arcsine", res: base, btp: bootstrapping.ParametersLiteral{LogN: ip(10), LogMessageRatio: mr(10), Mod1Type: mod1.SinContinuous, DoubleAngle: ip(0), Mod1Degree: ip(127), Mod1InvDegree: ip(7), K: ip(14)}, inLevels: []int{0}, batches: []int{1}, stages: true},
 		{name: "dft-split", res: base, btp: bootstrapping.ParametersLiteral{LogN: ip(10), LogMessageRatio: mr(10),
 			CoeffsToSlotsFactorizationDepthAndLogScales: [][]int{{56}, {56}}, SlotsToCoeffsFactorizationDepthAndLogScales: [][]int{{39}, {39}, {39}, {39}}}, inLevels: []int{0}, batches: []int{1}, stages: true},
 	}
+}
+
+// reducedDefaults: every exported default set with the ring degree reduced to 2^10 (message ratio corrected).
+func reducedDefaults() (out []variant) {
+	add := func(name string, sp ckks.ParametersLiteral, bpl bootstrapping.ParametersLiteral) {
+		sp.LogN = 10
+		bpl.LogN = ip(10)
+		// message ratio corrected for the ring degree as far as Q0 / scale leaves room
+		mrr := bootstrapping.DefaultLogMessageRatio + 16 - 10
+		if room := sp.LogQ[0] - sp.LogDefaultScale; mrr > room {
+			mrr = room
+		}
+		bpl.LogMessageRatio = ip(mrr)
+		out = append(out, variant{name: "reduced-" + name, res: sp, btp: bpl, inLevels: []int{0, 2}, batches: []int{1}, stages: true})
+	}
+	for i, d := range bootstrapping.DefaultParametersSparse {
+		add(fmt.Sprintf("sparse%d", i), d.SchemeParams, d.BootstrappingParams)
+	}
+	for i, d := range bootstrapping.DefaultParametersDense {
+		add(fmt.Sprintf("dense%d", i), d.SchemeParams, d.BootstrappingParams)
+	}
+	return
 }
 
 func guarded(f func() error) (err error, pan bool, msg string) {
@@ -278,7 +305,7 @@ func runVariant(w *tr.Writer, prog *int, v variant) {
 		}
 		e.PrecBits = precBits(want, have)
 	}
-	base := event{ResMax: pe.ResMax, LogN: pe.LogN, LogScale: pe.LogScale}
+	base := event{ResMax: pe.ResMax, LogN: pe.LogN, LogScale: pe.LogScale, Announced: v.announce}
 	slotOffs := v.slotOffs
 	if slotOffs == nil {
 		slotOffs = []int{0}
@@ -552,8 +579,9 @@ func Main(args []string) int {
 	w := tr.NewWriter(*trace)
 	prog := *part * 1000
 	k := 0
-	for _, v := range variants() {
-		if !*thorough && !v.quick {
+	all := append(variants(), reducedDefaults()...)
+	for _, v := range all {
+		if !*thorough && !v.quick && v.name != "reduced-sparse3" && v.name != "iter-highprec" {
 			continue
 		}
 		if k%*parts == *part {
